@@ -43,13 +43,22 @@ def gen_blame_model(rng, nlines=None, ncommits=None):
     return lines
 
 
+def shown_blame_hash(c):
+    """The hash column as git prints it: '^' marks a boundary commit, '?' / '*' lines of ignored revisions
+    (blame.markIgnoredLines / markUnblamableLines); each mark takes the place of one hash character."""
+    m = c.get('mark', '')
+    if c['boundary']:
+        return m + '^' + c['hash'][:7 - len(m)]
+    return m + c['hash'][:len(c['hash']) - len(m)]
+
+
 def blame_text(model, width=None):
     out = []
     aw = max(len(l['commit']['author']) for l in model) if model else 1
     nw = len(str(len(model)))
     for l in model:
         c = l['commit']
-        h = ('^' + c['hash'][:7]) if c['boundary'] else c['hash']
+        h = shown_blame_hash(c)
         f = (' ' + l['file']) if l['file'] else ''
         out.append('%s%s (%s %s %s %s) %s' % (h, f, c['author'].ljust(aw), c['time'], c['tz'],
                                                str(l['lineno']).rjust(nw), l['code']))
